@@ -56,6 +56,7 @@ use json::{arr, esc, hex, obj};
 struct Mono<'tcx> {
     ids: std::collections::HashMap<ty::Instance<'tcx>, usize>,
     queue: std::collections::VecDeque<(ty::Instance<'tcx>, usize, usize)>, // (instance, id, parent)
+    types: std::collections::BTreeMap<String, String>,
 }
 
 struct Cx<'tcx> {
@@ -266,6 +267,63 @@ impl<'tcx> Cx<'tcx> {
             }
         }
         obj(&items)
+    }
+
+    /// M-mode: record the layout (variants, fields with concrete types) of crate-defined ADTs
+    fn note_type(&self, t: Ty<'tcx>, depth: usize) {
+        let Some(m) = self.mono.as_ref() else { return };
+        if depth > 12 {
+            return;
+        }
+        let tcx = self.tcx;
+        let env = TypingEnv::fully_monomorphized();
+        match t.kind() {
+            ty::Ref(_, inner, _) => self.note_type(*inner, depth + 1),
+            ty::Tuple(ts) => {
+                for x in ts.iter() {
+                    self.note_type(x, depth + 1)
+                }
+            }
+            ty::Adt(ad, args) => {
+                let cname = tcx.crate_name(ad.did().krate).to_string();
+                let key = format!("{}", t);
+                if m.borrow().types.contains_key(&key) {
+                    return;
+                }
+                if cname == "core" || cname == "std" || cname == "alloc" {
+                    // Option / Result / ControlFlow wrappers: look through
+                    for a in args.iter() {
+                        if let Some(x) = a.as_type() {
+                            self.note_type(x, depth + 1);
+                        }
+                    }
+                    return;
+                }
+                if !(cname == "opaque_ke" || cname == "voprf" || cname == "suites" || cname == "fixtures") {
+                    return;
+                }
+                m.borrow_mut().types.insert(key.clone(), String::new());
+                let mut vs = Vec::new();
+                for v in ad.variants().iter() {
+                    let mut fs = Vec::new();
+                    for f in v.fields.iter() {
+                        let fty = f.ty(tcx, args);
+                        let fty = tcx.try_normalize_erasing_regions(env, rustc_middle::ty::Unnormalized::new_wip(fty)).unwrap_or(fty);
+                        fs.push(obj(&[("name", esc(f.name.as_str())), ("ty", self.ty(fty)), ("vis", esc(&format!("{:?}", f.vis)))]));
+                        self.note_type(fty, depth + 1);
+                    }
+                    vs.push(obj(&[("name", esc(v.name.as_str())), ("fields", arr(&fs))]));
+                }
+                let d = obj(&[
+                    ("dpath", esc(&self.dpath(ad.did()))),
+                    ("crate", esc(&cname)),
+                    ("kind", esc(if ad.is_enum() { "enum" } else { "struct" })),
+                    ("variants", arr(&vs)),
+                ]);
+                m.borrow_mut().types.insert(key, d);
+            }
+            _ => {}
+        }
     }
 
     /// defining crate + definition path (independent of re-exports)
@@ -547,6 +605,9 @@ impl<'tcx> Cx<'tcx> {
                 }
             }
         }
+        for d in body.local_decls.iter() {
+            self.note_type(d.ty, 0);
+        }
         let locals: Vec<String> = body
             .local_decls
             .iter_enumerated()
@@ -794,11 +855,21 @@ impl rustc_driver::Callbacks for Cb {
                 }
                 let cx = Cx {
                     tcx,
-                    mono: Some(std::cell::RefCell::new(Mono { ids: Default::default(), queue: Default::default() })),
+                    mono: Some(std::cell::RefCell::new(Mono { ids: Default::default(), queue: Default::default(), types: Default::default() })),
                     cur: std::cell::Cell::new(usize::MAX),
                 };
                 let (bodies, leaves) = cx.mono(roots, &["opaque_ke", "voprf", &krate]);
+                let types: Vec<String> = cx
+                    .mono
+                    .as_ref()
+                    .unwrap()
+                    .borrow()
+                    .types
+                    .iter()
+                    .map(|(k, v)| format!("{}:{}", esc(k), if v.is_empty() { "null".to_string() } else { v.clone() }))
+                    .collect();
                 let out = obj(&[
+                    ("types", format!("{{{}}}", types.join(","))),
                     ("crate", esc(&krate)),
                     ("mode", esc("M")),
                     ("suite", esc(suite)),
